@@ -247,6 +247,8 @@ class CEval:
         # that does not ask for them gets "not decided" (AnalysisError), never a silent pass
         self.allow_early = allow_early
         self.early = []
+        self.declared = set()
+        self.redecl = []  # names declared twice in the function's outermost scope: a C compiler refuses the function
 
     def decide(self, c):
         """True / False / None (not decided by the abstract state).  The positions of the zoo are symbolic, so the
@@ -360,6 +362,9 @@ class CEval:
                 continue
             if st[0] == "decl":
                 _, ty, name, e = st
+                if name in self.declared and name not in self.redecl:
+                    self.redecl.append(name)
+                self.declared.add(name)
                 self.env[name] = self.ev(e)
                 self.trace.append(("decl", ty, name, self.env[name]))
             elif st[0] == "augadd":
